@@ -77,6 +77,8 @@ CONTENTS = [
     ("str", "Bb"),
     ("list", ("G", "B", "D", "F")),
     ("mixed", ("A", ("C", 5))),
+    ("list", ()),           # an empty list becomes an (empty) note container like any other list
+    ("nc", ()),             # an empty container stays that container
 ]
 
 
